@@ -27,7 +27,7 @@ theorem C19_order_facts :
 /-- `playerRunner.UpdateTableState`, statement by statement (regenerated from actor/player_runner.go): a state that is not
 newer than the last one seen is dropped **whatever hand it belongs to** — the `UpdatedAt` comparison is not skipped for a
 state of another hand, so an update of the previous hand that is delivered late cannot re-arm the runner with a stale request. -/
-def expectedPlayerUpdate : List String := ["gs := table.State.GameState", "pr.tableInfo = table", "if gs != nil { if gs.GameID != pr.curGameID { pr.curGameID = gs.GameID } if pr.lastGameStateTime >= gs.UpdatedAt { return nil } pr.lastGameStateTime = gs.UpdatedAt }", "isEliminated := true", "for _, ps := range table.State.PlayerStates { if ps.PlayerID == pr.playerID { isEliminated = false } }", "if isEliminated { return nil }", "gamePlayerIdx := pr.actor.GetTable().GetGamePlayerIndex(pr.playerID)", "pr.onTableStateUpdated(table)", "switch table.State.Status { case pokertable.TableStateStatus_TableGamePlaying: if gamePlayerIdx == -1 { return nil } gs.AsPlayer(gamePlayerIdx) player := gs.GetPlayer(gamePlayerIdx) if len(player.AllowedActions) > 0 { pr.requestMove(gs, gamePlayerIdx) } }", "return nil"]
+def expectedPlayerUpdate : List String := ["gs := table.State.GameState", "pr.tableInfo = table", "if gs != nil { if gs.GameID != pr.curGameID { pr.curGameID = gs.GameID } if pr.lastGameStateTime >= gs.UpdatedAt { return nil } pr.lastGameStateTime = gs.UpdatedAt }", "isEliminated := true", "for _, ps := range table.State.PlayerStates { if ps.PlayerID == pr.playerID { isEliminated = false } }", "if isEliminated { return nil }", "gamePlayerIdx := pr.actor.GetTable().GetGamePlayerIndex(pr.playerID)", "pr.onTableStateUpdated(table)", "switch table.State.Status { case pokertable.TableStateStatus_TableGamePlaying: if gamePlayerIdx == -1 { return nil } if gs == nil { return nil } gs.AsPlayer(gamePlayerIdx) player := gs.GetPlayer(gamePlayerIdx) if len(player.AllowedActions) > 0 { pr.requestMove(gs, gamePlayerIdx) } }", "return nil"]
 
 theorem C19_update_facts : Facts.playerUpdate = expectedPlayerUpdate := by rfl
 
